@@ -89,7 +89,18 @@ C09|C10|C14|C16|C20)
   ;;
 esac
 cd "$VERIF" || exit 2
-VERIF_SCHED_SUMMARY="$SUMMARY" "$BIN" -property "$PROP" -tier "$TIER" "$@"
-rc=$?
+RUNLOG="$VERIF/.bin/run.$$.log"
+{ VERIF_SCHED_SUMMARY="$SUMMARY" "$BIN" -property "$PROP" -tier "$TIER" "$@" 2>&1; echo $? > "$RUNLOG.rc"; } | tee "$RUNLOG"
+rc=$(cat "$RUNLOG.rc")
+# the enumerating parts call the library from all worker goroutines at once, each on values of its
+# own; a tree in which such calls share unsynchronised state can end the process with a Go runtime
+# fatal error (not recoverable in-process) before any oracle has spoken: the property's oracles are
+# then run again on a single worker (that the calls are not independent is C10's subject)
+if [ "$rc" != 0 ] && [ "$rc" != 1 ] && grep -q '^fatal error: concurrent map' "$RUNLOG"; then
+  echo "note: the library ended the process with a Go runtime fatal error under concurrent calls on separate values ($(grep -m1 '^fatal error' "$RUNLOG")); running the property's oracles again on one worker"
+  VERIF_WORKERS=1 VERIF_SCHED_SUMMARY="$SUMMARY" "$BIN" -property "$PROP" -tier "$TIER" "$@"
+  rc=$?
+fi
+rm -f "$RUNLOG" "$RUNLOG.rc"
 cleanup
 exit $rc
